@@ -7,6 +7,7 @@
     pattern); the mux itself is an external (exact match on clean paths).
 -/
 import Model.Prim
+import Model.Gen.Resolve
 
 namespace Resolve
 open Prim
@@ -58,13 +59,20 @@ def inproc (guardEmpty checkLen : Bool) (k : Kind) (reg : List Svc) (m : Bytes) 
     | [svc, mth] => lookup k reg svc mth
     | _ => if checkLen then .unimplemented else .panic
 
-/-- the code as it is today (both guards present) -/
-def inprocNow (k : Kind) (reg : List Svc) (m : Bytes) : Outcome := inproc true true k reg m
+/-- the code as it is in the working tree: the guard facts are regenerated from source -/
+def inprocNow (k : Kind) (reg : List Svc) (m : Bytes) : Outcome :=
+  match k with
+  | .unary => inproc Gen.invokeGuardEmpty Gen.invokeCheckLen k reg m
+  | .stream => inproc Gen.newStreamGuardEmpty Gen.newStreamCheckLen k reg m
 
 /-! ### HTTP: `path.Join` on segment lists -/
 
-/-- split on '/' -/
-def segs (p : Bytes) : List Bytes := p.splitOn 47 |>.map id
+/-- split on '/' (`cur` is the current segment, reversed) -/
+def segsAux : Bytes → Bytes → List Bytes
+  | cur, [] => [cur.reverse]
+  | cur, c :: r => if c == 47 then cur.reverse :: segsAux [] r else segsAux (c :: cur) r
+
+def segs (p : Bytes) : List Bytes := segsAux [] p
 
 /-- `path.Clean` on the segments of a rooted path: drop empty and ".", resolve ".." -/
 def cleanSegs : List Bytes → List Bytes → List Bytes
